@@ -690,6 +690,10 @@ func vSlot0(vec vector.Any) zed.Value {
 func vCheckArith(l, r vOperand, kinds string, ops []string) {
 	zctx := zed.NewContext()
 	base := vKnownRegion(l, r)
+	if base == "nan" {
+		// NaN operands are no special region for arithmetic
+		base = ""
+	}
 	for _, op := range ops {
 		region := base
 		if region == "" && (op == "/" || op == "%") && vIsZero(r) {
@@ -702,12 +706,9 @@ func vCheckArith(l, r vOperand, kinds string, ops []string) {
 		if region != "" {
 			id = kinds + "/" + region
 		}
-		var vv zed.Value
-		var vlen uint32
+		var out vector.Any
 		panicked := vRun(func() {
-			out := NewArith(zctx, vVecEval{l.vec}, vVecEval{r.vec}, op).Eval(nil)
-			vlen = out.Len()
-			vv = vSlot0(out)
+			out = NewArith(zctx, vVecEval{l.vec}, vVecEval{r.vec}, op).Eval(nil)
 		})
 		se, err := samexpr.NewArithmetic(zctx, samexpr.NewLiteral(l.val), samexpr.NewLiteral(r.val), op)
 		if err != nil {
@@ -718,8 +719,10 @@ func vCheckArith(l, r vOperand, kinds string, ops []string) {
 		if panicked {
 			continue
 		}
-		verif.Assert(vlen == 1, "vam-length/"+id)
-		verr, serr := vv.IsError(), sv.IsError()
+		verif.Assert(out.Len() == 1, "vam-length/"+id)
+		// error-ness is decided on the vector's type before slot 0 is read
+		_, verr := out.Type().(*zed.TypeError)
+		serr := sv.IsError()
 		if verr != serr {
 			if verr {
 				verif.Assert(false, "only-vam-errors/"+id)
@@ -732,6 +735,7 @@ func vCheckArith(l, r vOperand, kinds string, ops []string) {
 			verif.Reach("both-error")
 			continue
 		}
+		vv := vSlot0(out)
 		verif.Assert(vv.Type() == sv.Type(), "result-type-differs/"+id)
 		if vv.Type() != sv.Type() {
 			continue
